@@ -64,6 +64,7 @@ EXPECT = {
     "_escape_regex_range_chars": "ed777546506cf86a",
     "_collapse_string_to_ranges": "971c5a9187c3dc0f",
     "_GroupConsecutive.__call__": "8acb794b102655da",
+    "_GroupConsecutive.__init__": "9c413f2fe68cb024",
     "make_compressed_re": "411d23a67802c34f",
 }
 
@@ -158,6 +159,8 @@ def fingerprints(repo):
     fps["_collapse_string_to_ranges"], texts["_collapse_string_to_ranges"] = _fp(_strip_doc(fn))
     k = "_GroupConsecutive.__call__"
     fps[k], texts[k] = _fp(_strip_doc(_find(util, ["_GroupConsecutive", "__call__"])))
+    k = "_GroupConsecutive.__init__"
+    fps[k], texts[k] = _fp(_strip_doc(_find(util, ["_GroupConsecutive", "__init__"])))
     fps["make_compressed_re"], texts["make_compressed_re"] = _fp(_strip_doc(_find(util, ["make_compressed_re"])))
     return fps, facts, texts
 
